@@ -65,6 +65,16 @@ def gen_idl(rng, n, kind=None, start=None):
             k = rng.randrange(2, n - 1)
             l[k] += rng.choice([-1, 1])
         return l
+    if kind == 'coprime':
+        # gaps whose smallest member is NOT their greatest common divisor (2 and 3, 4 and 6, 6 / 9 / 15): the common
+        # spacing of the chain is the gcd
+        gs = rng.choice([[2, 3], [4, 6], [6, 9, 15], [3, 5]])
+        l = [start]
+        for _ in range(n - 1):
+            l.append(l[-1] + rng.choice(gs))
+        if len(set(b - a for a, b in zip(l, l[1:]))) < 2 and n >= 3:
+            l[-1] = l[-2] + [g for g in gs if g != l[1] - l[0]][0]
+        return l
     # irregular: random increasing with spacing multiple of g
     g = rng.choice([1, 1, 2, 5])
     l = [start]
